@@ -118,7 +118,70 @@ def cases(tier, seed):
                         'shape': list(shapes[int(r.integers(len(shapes)))]), 'cplx': bool(r.integers(2)),
                         'entry': int(r.integers(12)),
                         'layout': ['C', 'C', 'F', 'T', 'strided', 'reversed'][int(r.integers(6))]}})
+    return out + extreme_cases(tier, seed)
+
+
+# arguments of extreme magnitude inside the domain, chosen so that the function value stays representable; orders whose exact
+# coefficient (or majorant) exceeds 1e290 are not compared; vanishing ones are compared against the absolute floor
+EXTREME = {'exp': [600., -600.], 'expm1': [600., -40., -700.], 'log': [1e200], 'log1p': [1e200], 'sqrt': [1e200], 'sin': [1e6], 'cos': [1e6],
+           'arctan': [1e100, -1e100], 'sinh': [600., -600.], 'cosh': [600., -600.], 'tanh': [400., -400., 20.], 'reciprocal': [1e200],
+           'square': [1e150, 1e-150], 'erf': [30., -30., 6.], 'erfi': [20.], 'dawsn': [30.], 'expit': [800., -800., 40., -40.],
+           'gammaln': [1e10, 1e100], 'psi': [1e10], 'polygamma1': [1e5], 'pow_real_2.5': [1e100], 'pow_int_3': [1e100, 1e-100], 'pow_negint_3': [1e90]}
+# (no tiny arguments for functions singular at 0: the reference differentiates numerically with steps larger than the distance to the singularity)
+
+
+def extreme_cases(tier, seed):
+    out = []
+    for name, pts in EXTREME.items():
+        for x0 in pts:
+            for D in (1, 2, 3):
+                s = case_seed('C01', seed, 'extreme', name, x0, D)
+                out.append({'kind': 'extreme', 'seed': s, 'params': {'fn': name, 'x0': x0, 'D': D, 'entry': int(np.random.default_rng(s).integers(12))}})
     return out
+
+
+def _extreme(ctx, p, rng):
+    name, x0, D = p['fn'], p['x0'], p['D']
+    t = T()[name]
+    ents = sorted(t['entries'].items())
+    ename, f = ents[p['entry'] % len(ents)]
+    data = np.zeros((D, 2, 2))
+    data[0] = x0 * np.array([[1.0, 1.0 + 1e-3], [1.0 - 1e-3, 1.0]])
+    if D > 1:
+        data[1:] = 0.5 * rng.normal(size=(D - 1, 2, 2))
+    try:
+        with np.errstate(all='ignore'):
+            y = _unwrap(f(UTPM(data.copy())), D, 2, (2,))
+    except Exception as e:
+        if ename == 'npy':
+            ctx.skip('unsupported:numpy-dispatch:' + name); return
+        ctx.violation('%s:extreme-argument:raises' % name, {'fn': name, 'entry': ename, 'x0': x0, 'error': repr(e)[:200]}); return
+    if y is None or y.shape != data.shape:
+        ctx.violation('%s:extreme-argument:shape' % name, {'fn': name, 'entry': ename, 'x0': x0}); return
+    compared = 0
+    for pp in range(2):
+        for el in range(2):
+            xs = list(data[:, pp, el])
+            try:
+                ref, maj = O.series(t['mp'], xs)
+            except Exception:
+                ctx.skip('reference-unavailable:extreme:' + name); return
+            for d in range(D):
+                if not maj[d] < mp.mpf('1e290'):
+                    continue          # the exact coefficient is not representable
+                compared += 1
+                g = y[d, pp, el]
+                tau = TAU_FN.get(name.split('_')[0], TAU)
+                # beyond the usual majorant scale an absolute floor relative to the function value: where f' underflows against f
+                # (tanh(20) = 1 - 8e-18) a recurrence in y cannot resolve it, and the statement does not ask for that
+                floor = mp.mpf('1e-14') * max(1, abs(ref[0])) * (1 + max(abs(v) for v in xs[1:] + [0])) ** d
+                if not np.isfinite(g) or not abs(O.num(g) - ref[d]) <= tau * maj[d] + floor:
+                    ctx.violation('%s:extreme-argument:%s' % (name, 'd0' if d == 0 else 'd>=1'),
+                                  {'fn': name, 'entry': ename, 'x0': float(xs[0]), 'order': d, 'got': float(g), 'want': mp.nstr(ref[d], 17), 'x': [float(v) for v in xs]}); return
+    if compared:
+        ctx.ok('extreme-argument', ('extreme', name, x0, D, ename))
+    else:
+        ctx.skip('extreme:nothing-representable:' + name)
 
 
 REQUIRED = None
@@ -156,6 +219,8 @@ def _elements(shape, rng, maxn=4):
 def run_case(ctx, case):
     p = case['params']
     rng = gen.rng_of(case)
+    if case['kind'] == 'extreme':
+        return _extreme(ctx, p, rng)
     name, D, P, shape, pat = p['fn'], p['D'], p['P'], tuple(p['shape']), p['pattern']
     if name in PIECEWISE:
         return _piecewise(ctx, p, rng)
